@@ -1131,7 +1131,9 @@ class ImmKinds:
                         0, 0xFFFFFFFFFFFFFFFF, 0x12345, 0x100000001, 5,
                         0xC000000000000003, 0x7F00000000000001, 0x6000000000000001, 0x4141414141414141, 0x4001400140014001]
             if iname == "mov":
-                self.mov_imm(vals + [0x1234, 0xFFFF0000, (1 << size) - 1 - 0x1234, 0x123456789ABC], size)
+                self.mov_imm(vals + [0x1234, 0xFFFF0000, (1 << size) - 1 - 0x1234, 0x123456789ABC,
+                                    # MOVN-led sequences (MOVN + one / two MOVK), 32-bit values with a 0xFFFF half in an X register
+                                    0xFFFFFFFF12341234, 0xFFFF1234FFFF5678, (1 << size) - 100000, 0x0000FFFFFFFF1234, 0x1234FFFF, 0xFFFF1234], size)
                 return
             self.simple(vals, lambda v, c: 0 <= v < (1 << size) and is_logical_imm(v, size))
             return
@@ -1163,7 +1165,7 @@ class ImmKinds:
             return
         if (nm == "immZ" and iname in ("add", "adds", "sub", "subs")) or (nm == "imm" and iname in ("cmp", "cmn")):
             # 12-bit immediate, optionally LSL #12; assemblers also take a 24-bit value with 12 low zero bits
-            self.simple([0x123, 0, 1, 0xFFF, 0x1000, 0xFFF000, 0x1001, 0x1000000, -1],
+            self.simple([0x123, 0, 1, 0xFFF, 0x1000, 0xFFF000, 0x1001, 0x1000000, -1, 0x12345, 0x100000000, 0x800123000, 0x100000123],
                         lambda v, c: 0 <= v <= 0xFFF or (v & 0xFFF == 0 and 0 <= v <= 0xFFF000 and self.no_shift(c)))
             return
         if nm == "imm" and iname in ("ccmp", "ccmn"):
